@@ -392,7 +392,7 @@ class LosSpec(unit.UnitSpec):
         self.plan = plan
 
     def gen(self, rng, tier, debug):
-        n = 500 if tier == "quick" else 6000
+        n = 500 if tier == "quick" else 3000
         cases = []
         for i in range(n):
             nobj, ngc = rng.choice([1, 2, 3, 5, 8, 8, 13, 13, 20, 25, 25]), rng.choice([1, 1, 2, 3, 4, 6, 8])
